@@ -740,4 +740,57 @@ func runC16(c *core.Ctx) {
 			}
 		}
 	}
+	// (5) the date layout in effect is the one every heading is written in, heading by heading (round 12, K16: a
+	// memo of the last formatted heading keyed by second and offset): layouts that show more than the second, set
+	// by flag, by variable and by configuration file; neighbouring headings inside one second, and the same
+	// wall-clock time under two zone abbreviations of one offset
+	fineDir := filepath.Join(c.Work, "fine-layouts")
+	for li, lc := range []struct {
+		layout string
+		stamps []string
+	}{
+		{"2006/01/02 15:04:05.000", []string{"2021/01/01 10:00:00.250", "2021/01/01 10:00:00.750", "2021/01/01 10:00:01.000", "2021/01/01 10:00:01.999", "2021/01/02 10:00:01.999"}},
+		{"2006-01-02 15:04:05.000000000", []string{"2021-01-01 23:59:59.000000001", "2021-01-01 23:59:59.000000002", "2021-01-01 23:59:59.999999999", "2021-01-02 00:00:00.000000000"}},
+		{"2006/01/02 15:04 MST", []string{"2021/01/01 10:00 UTC", "2021/01/01 10:00 GMT", "2021/01/01 10:00 UTC", "2021/01/01 10:01 GMT"}},
+		{"2006/01/02 15:04:05 -0700", []string{"2021/01/01 10:00:00 +0100", "2021/01/01 09:00:00 +0000", "2021/01/01 04:00:00 -0500", "2021/01/01 10:00:00 +0100"}},
+	} {
+		var sb strings.Builder
+		for k, st := range lc.stamps {
+			fmt.Fprintf(&sb, "%s:\n  bread: %d\n", st, k+1)
+		}
+		files := map[string]string{"food.yaml": "bread:\n  kcal: 2\n", "log.yaml": sb.String(), "fine.conf": "[Global]\nDateFormat=" + lc.layout + "\n"}
+		run.WriteFiles(fineDir, files)
+		for _, src := range []string{"flag", "env", "conf"} {
+			for _, cmd := range [][]string{{"reg"}, {"reg", "--use-old-reg-reporter"}, {"reg", "--internal-template-name", "left-aligned"}, {"reg", "--totals-only"}, {"reg", "-s", "kcal"}, {"reg", "-f", "bread"}, {"print"}} {
+				args := []string{"--no-color", "-d", "food.yaml", "-l", "log.yaml"}
+				env := map[string]string{"TZ": "UTC"}
+				switch src {
+				case "flag":
+					args = append(args, "--date-format", lc.layout)
+				case "env":
+					env["HR_DATE_FORMAT"] = lc.layout
+				default:
+					args = append(args, "--config", "fine.conf")
+				}
+				args = append(args, cmd...)
+				res := run.Exec(c.HR, args, run.ExecOpts{Dir: fineDir, Env: env})
+				c.Eval(1)
+				c.Count("date_layouts_finer_than_a_second_runs", 1)
+				c.Nontrivial("fine", fmt.Sprint(li), src, joinArgs(cmd))
+				rest, missing := res.Out, ""
+				for _, st := range lc.stamps {
+					k := strings.Index(rest, st)
+					if k < 0 {
+						missing = st
+						break
+					}
+					rest = rest[k+len(st):]
+				}
+				if res.Exit != 0 || missing != "" {
+					c.Violation("date-format|heading-not-written-in-the-layout-in-effect", fmt.Sprintf("%s with layout %q set by %s: exit %d, heading %q is not in the report after the headings before it", joinArgs(cmd), lc.layout, src, res.Exit, missing),
+						caseDoc{Files: files, Args: args, Env: env, Observed: resDoc(res)})
+				}
+			}
+		}
+	}
 }
